@@ -652,3 +652,91 @@ Lemma corner3_inside c0 c1 c2 h0 h1 h2 r00 r01 r02 r10 r11 r12 r20 r21 r22 p0 p1
   obb_inside ROps {| o_center := [c0; c1; c2]; o_half := [h0; h1; h2];
                      o_rot := [[r00; r01; r02]; [r10; r11; r12]; [r20; r21; r22]] |} [p0; p1; p2] = true.
 Proof. intros H0 H1 H2 Ho Hc. apply obb3_inside_geometric; [exact Ho|]. apply corner3_in_obb; assumption. Qed.
+
+(* ------------------------------------------------------------------ oriented box -> axis-aligned box, any dimension.
+   The oriented box is taken as the point set { c + R q : |q_j| <= h_j } (for 2D/3D rotations this is exactly what
+   isInside accepts: obb2_inside_geometric, obb3_inside_geometric).  No orthogonality is needed here. *)
+Lemma fold_add_map {A} (g : A -> R) l : forall a, fold_left (fun acc x => acc + g x) l a = a + Rsum (map g l).
+Proof. induction l as [|x l IH]; intros a; simpl; [lra|]. rewrite IH. lra. Qed.
+
+Lemma dot_cons a r q0 q : dot ROps (a :: r) (q0 :: q) = a * q0 + dot ROps r q.
+Proof. unfold dot. cbn [combine fold_left fst snd nadd nmul nzero ROps]. rewrite !fold_add_map. lra. Qed.
+
+Lemma extent_cons a r h0 h : abs_row_extent ROps (a :: r) (h0 :: h) = Rabs (a * h0) + abs_row_extent ROps r h.
+Proof. unfold abs_row_extent. cbn [combine fold_left fst snd nadd nmul nabs nzero ROps]. rewrite !fold_add_map. lra. Qed.
+
+Lemma dot_nil_l q : dot ROps [] q = 0.  Proof. reflexivity. Qed.
+Lemma dot_nil_r r : dot ROps r [] = 0.  Proof. destruct r; reflexivity. Qed.
+Lemma extent_nil_l h : abs_row_extent ROps [] h = 0.  Proof. reflexivity. Qed.
+Lemma extent_nil_r r : abs_row_extent ROps r [] = 0.  Proof. destruct r; reflexivity. Qed.
+
+Lemma row_bound r : forall q h, Forall2 (fun q h => Rabs q <= h) q h -> Rabs (dot ROps r q) <= abs_row_extent ROps r h.
+Proof.
+  induction r as [|a r IH]; intros q h H.
+  - rewrite dot_nil_l, extent_nil_l, Rabs_R0. lra.
+  - destruct H as [|q0 h0 q h H0 H].
+    + rewrite dot_nil_r, extent_nil_r, Rabs_R0. lra.
+    + rewrite dot_cons, extent_cons. specialize (IH q h H).
+      pose proof (abs_term_le a q0 h0 H0). pose proof (Rabs_triang (a * q0) (dot ROps r q)). lra.
+Qed.
+
+Lemma row_attained r : forall h, Forall (fun x => 0 <= x) h ->
+  exists q, Forall2 (fun q h => q = h \/ q = - h) q h /\ dot ROps r q = abs_row_extent ROps r h.
+Proof.
+  induction r as [|a r IH]; intros h Hh.
+  - exists h. split; [|reflexivity]. induction h; constructor; auto. inversion Hh; auto.
+  - destruct h as [|h0 h].
+    + exists []. split; [constructor|]. rewrite dot_nil_r, extent_nil_r. reflexivity.
+    + inversion Hh as [|? ? H0 Hr]; subst. destruct (IH h Hr) as (q & Hq & E).
+      destruct (sign_attains a h0 H0) as (s & Hs & Es).
+      exists (s * h0 :: q). split.
+      * constructor; [|exact Hq]. destruct Hs as [-> | ->]; [left|right]; ring.
+      * rewrite dot_cons, extent_cons, E, Es. reflexivity.
+Qed.
+
+Lemma dot_opp r : forall q, dot ROps r (map Ropp q) = - dot ROps r q.
+Proof.
+  induction r as [|a r IH]; intros q; [rewrite !dot_nil_l; lra|].
+  destruct q as [|q0 q]; [cbn [map]; rewrite !dot_nil_r; lra|].
+  cbn [map]. rewrite !dot_cons, IH. ring.
+Qed.
+
+Lemma map_nth_in {A} (f : A -> R) l i d : (i < length l)%nat -> (map f l).[i] = f (nth i l d).
+Proof. revert i; induction l; intros [|i] H; simpl in *; try lia; auto. apply IHl; lia. Qed.
+
+Lemma Forall2_length_eq {A B} (P : A -> B -> Prop) l1 l2 : Forall2 P l1 l2 -> length l1 = length l2.
+Proof. induction 1; simpl; auto. Qed.
+
+Lemma obb_image_in_aabb (c h : list R) (Rm : list (list R)) q :
+  length Rm = length c -> Forall2 (fun q h => Rabs q <= h) q h ->
+  aabb_inside ROps (obb_to_aabb ROps {| o_center := c; o_half := h; o_rot := Rm |}) (vadd ROps c (mul_vec ROps Rm q)) = true.
+Proof.
+  intros HL Hq. unfold aabb_inside, obb_to_aabb, vabs, vsub, vadd, mul_vec. cbn [a_center a_half o_center o_half o_rot].
+  assert (L1 : length (map2 (nadd ROps) c (map (fun row => dot ROps row q) Rm)) = length c)
+    by (apply map2_length; rewrite map_length; lia).
+  apply all2_iff.
+  - rewrite !map_length, map2_length; lia.
+  - rewrite map_length, map2_length by lia. rewrite L1. intros i Hi.
+    rewrite map_nth0 by (rewrite map2_length; lia). rewrite map2_nth by lia. rewrite map2_nth by (rewrite ?map_length; lia).
+    rewrite (map_nth_in (fun row => dot ROps row q) Rm i []) by lia.
+    rewrite (map_nth_in (fun row => abs_row_extent ROps row h) Rm i []) by lia.
+    cbn [nadd nsub nabs nleb ROps]. apply Rleb_true.
+    replace (c.[i] + dot ROps (nth i Rm []) q - c.[i]) with (dot ROps (nth i Rm []) q) by ring.
+    apply row_bound. exact Hq.
+Qed.
+
+Lemma obb_aabb_face_touched (c h : list R) (Rm : list (list R)) i :
+  length Rm = length c -> (i < length c)%nat -> Forall (fun x => 0 <= x) h ->
+  let e := (a_half (obb_to_aabb ROps {| o_center := c; o_half := h; o_rot := Rm |})).[i] in
+  exists q, Forall2 (fun q h => q = h \/ q = - h) q h /\
+    (vadd ROps c (mul_vec ROps Rm q)).[i] = c.[i] + e /\
+    (vadd ROps c (mul_vec ROps Rm (map Ropp q))).[i] = c.[i] - e.
+Proof.
+  intros HL Hi Hh. cbn [obb_to_aabb a_half o_rot o_half].
+  destruct (row_attained (nth i Rm []) h Hh) as (q & Hq & E). exists q. split; [exact Hq|].
+  unfold vadd, mul_vec.
+  rewrite !map2_nth by (rewrite ?map_length; lia).
+  rewrite !(map_nth_in (fun row => dot ROps row _) Rm i []) by lia.
+  rewrite (map_nth_in (fun row => abs_row_extent ROps row h) Rm i []) by lia.
+  rewrite dot_opp, E. cbn [nadd ROps]. split; ring.
+Qed.
